@@ -212,6 +212,45 @@ theorem diagnose_none_iff (es : List Exp) (c : Call)
   rw [← first_deviation_diagnosis es c 0 [] hclean hplain hun hwfe hwf]
   exact (call_succeeds_iff es c 0 [] hclean hplain hun hwfe hwf).1
 
+/-! ### every class, also `ignoreOtherParameters` and ambiguous sets -/
+
+/-- **no_stale_matching_state.** Whatever the expectations are (also with
+    `ignoreOtherParameters`, also ambiguous) and whatever the steps of the call: a call that
+    reports no failure leaves every expectation with clean matching flags — the consumed one, the
+    candidates that were not consumed, and the ones dropped on the way.  (This is what the two
+    defects of this code area broke: marks surviving on dropped, resp. on non-consumed
+    candidates let a later call pass without a required parameter.) -/
+theorem no_stale_matching_state (es : List Exp) (k : Nat) (n : String) (segs : List Seg) (buf : List UInt8)
+    (hclean : Clean es) (hf : (callFull es k n segs buf).fail = none) : Clean (callFull es k n segs buf).es :=
+  callFull_clean es k n segs buf hclean hf
+
+/-- hence every call of a run starts from clean flags -/
+theorem calls_leave_clean : ∀ (calls : List Call) (es : List Exp) (k : Nat) (es' : List Exp),
+    Clean es → afterCalls es k calls = some es' → Clean es'
+  | [], es, k, es', h, ha => by
+    simp only [afterCalls, Option.some.injEq] at ha; subst ha; exact h
+  | c :: rest, es, k, es', h, ha => by
+    simp only [afterCalls] at ha
+    cases hf : (callFull es (k + 1) c.name c.segs bufInit).fail with
+    | some m => rw [hf] at ha; cases ha
+    | none =>
+      rw [hf] at ha
+      exact calls_leave_clean rest _ (k + 1) es' (callFull_clean es (k + 1) c.name c.segs bufInit h hf) ha
+
+/-- The full-strength statement for the ignore-other-parameters class (textbook reading: a call
+    matches such an expectation iff name/object agree and every parameter it names occurs in the
+    call with an equal value, extra parameters allowed; for sets that are unambiguous in that
+    sense the scenario passes iff the calls can be assigned one-to-one to the expected units).
+    NOT PROVED: the invariant chain of the plain class relies on complete candidates being taken
+    during the call, while here the match is only taken when the call is finished.  It is what
+    the specification oracle judges on the implementation's observations in every run (stream
+    `iop`), and `no_stale_matching_state` is the part of it that is proved. -/
+def iop_verdict_iff_multiset_eq_full : Prop :=
+  ∀ (es : List Exp) (k : Nat) (calls : List Call),
+    Clean es → UnambiguousI es → (∀ e ∈ es, WFExp e) → (∀ c ∈ calls, WFCall c) →
+    (∀ e ∈ es, e.actual ≤ e.expected) → NoOrder es →
+    (run es k calls = none ↔ MultisetEqI es calls)
+
 /-! ### the runs of the theorems are what the driver's per-scope functions compute -/
 
 /-- **model glue (calls).** `callFull` — the call statement all theorems talk about — is what the
@@ -307,6 +346,18 @@ example : diagnose exEs ⟨"foo", [.inp "a" (.int 1), .inp "c" (.int 1)]⟩ = so
 example : diagnose exEs ⟨"foo", [.inp "a" (.int 1), .inp "b" (.int 3)]⟩ = some "Mock Failure: Expected call on object for function \"foo\" but it did not happen." := by decide
 example : diagnose exEs ⟨"foo", [.obj 6, .inp "a" (.int 1), .inp "b" (.int 3)]⟩ = some "Mock Failure: Unexpected parameter value to parameter \"b\" to function \"foo\"" := by decide
 example : diagnose exEs ⟨"baz", []⟩ = some "Mock Failure: Unexpected call to function: baz" := by decide
+
+/-- twice `foo(a=1)` with other parameters ignored -/
+def ioA : Exp := (Exp.new "foo" 1 0 0).addSeg (.inp "a" (.int 1)) |>.addSeg .iop |>.addSeg (.ret (.int 10))
+def ioB : Exp := (Exp.new "foo" 1 0 0).addSeg (.inp "a" (.int 1)) |>.addSeg .iop |>.addSeg (.ret (.int 11))
+def ioC1 : Call := ⟨"foo", [.inp "a" (.int 1), .inp "x" (.int 7)]⟩
+def ioC2 : Call := ⟨"foo", [.inp "x" (.int 8), .inp "a" (.int 1)]⟩
+def ioBad : Call := ⟨"foo", [.inp "x" (.int 8)]⟩
+example : Clean [ioA, ioB] ∧ UnambiguousI [ioA, ioB] := by decide
+example : run [ioA, ioB] 0 [ioC1, ioC2] = none ∧ MultisetEqI [ioA, ioB] [ioC1, ioC2] := by decide
+example : run [ioA, ioB] 0 [ioC1, ioBad] = some "Mock Failure: Expected parameter for function \"foo\" did not happen."
+    ∧ ¬ MultisetEqI [ioA, ioB] [ioC1, ioBad] := by decide
+example : returnValueOf (callFull [ioA, ioB] 1 ioC1.name ioC1.segs bufInit).es = some (.int 10) := by decide
 
 /-- the same expectations declared under `strictOrder()` -/
 def sxA : Exp := (Exp.new "foo" 2 1 2).addSeg (.inp "a" (.int 1)) |>.addSeg (.inp "b" (.int 2))
